@@ -168,7 +168,7 @@ WHOLE = [("a(:)", "b(:)"), ("a", "b"), ("a", "0.0"), ("a(:)", "b + 1.0"),
 #: integer / logical statements
 ISTMT = ["k = ix(j) + n", "j = k", "ix(k) = k + 1", "ix(ix(k)) = 1", "k = size(a)",
          "k = size(a(1:n))", "k = int(t)", "k = mod(k, 2)", "i = sd%k", "sd%k = k",
-         "sa(k)%k = ix(sa(j)%k)", "k = ubound(q, 2)", "k = ifw(j)", "j = ifr(k) + ifw(k)",
+         "sa(k)%k = ix(sa(j)%k)", "k = ubound(q, 2)", "k = ifw(j)", "j = ifr(n) + ifw(k)",
          "ix(1:n) = ix(0:n - 1)", "k = count(a(0:n) > 1.0)", "k = max(n, k, j)",
          "k = k + 1", "i = i"]
 LSTMT = ["l = t > u", "l = .not. l", "l = allocated(al)", "l = k == n .and. l",
@@ -209,7 +209,7 @@ CALL_EXTRA = ["call cp(t, u)", "call cp(a(k), a(k + 1))", "call cp(zy=u, zx=t)",
               "call as_r(a, t)", "call as_r(a(1:n), a(0))", "call as_r(b(1:n) * 2.0, u)",
               "call as_r(sd%d, sd%w)", "call ai_w(ix)", "call ai_w(iv)",
               "call st_w(sd)", "call st_w(sa(k))", "call st_w(se%in)", "call st_n(sd)",
-              "call st_r(sd, t)", "call st_r(sa(ix(k)), a(k))", "call st_r(se%in, se%in%w)",
+              "call st_r(sd, t)", "call st_r(sa(ix(k)), a(k))", "call st_r(se%in, se%e(k))",
               "call p_ar(a)", "call p_ar(sd%d)", "call p_ar(sa(k)%d)"]
 
 # intrinsic subroutines: texts of call statements (all with non-character arguments)
@@ -286,6 +286,20 @@ def ifblk(cond, then, els=None):
     return text + "end if"
 
 
+_SIDE_EFFECT = re.compile(r"\bi?fw\((\w+)")
+
+
+def conforming(body):
+    """Fortran 2018 10.1.4: a function reference must not define a variable
+    that is referenced elsewhere in the same statement.  fw/ifw define their
+    argument; statements that also mention that variable are not generated."""
+    for line in body.split("\n"):
+        for var in _SIDE_EFFECT.findall(line):
+            if len(re.findall(rf"\b{var}\b", line)) > 1:
+                return False
+    return True
+
+
 def call_stmts():
     out = []
     actuals = SREF[:16]
@@ -307,7 +321,8 @@ def corpus(tier):
     out = []
 
     def add(fam, body):
-        out.append((fam + ":" + body.replace("\n", " ; "), fam, body))
+        if conforming(body):
+            out.append((fam + ":" + body.replace("\n", " ; "), fam, body))
 
     # A: scalar real assignments: every target x every rvalue
     rvals = SREF + SEXPR
